@@ -159,16 +159,46 @@ def mk_ff_result(mode, V):
     return Callback("ff_result", lambda I, n, a, k: a[0].name != rej), lambda n: n != rej
 
 
+def same_filter(th, got, want):
+    """The filter handed to neighbors() is the traversal's ff_via - the very object, or a wrapper that delegates to it with the
+    same arguments and passes its answer on (probed once with a link/vertex pair)."""
+    if got is want:
+        return True
+    if want is None or got is None or not isinstance(want, Callback):
+        return False
+    try:
+        n0 = len(want.calls)
+        probe_l, probe_v = Tok(901, "probe-link"), Tok(902, "probe-vertex")
+        saved = want.script
+        for answer in (True, False):
+            want.script = lambda I, n, a, k, _a=answer: _a
+            r = th.h.I.call(got, [probe_l, probe_v], {})
+            if len(want.calls) == n0 or want.calls[-1][0] != [probe_l, probe_v] or bool(th.h.I.truth(r)) != answer:
+                return False
+        return True
+    except (Unknown, Raised):
+        return False
+    finally:
+        want.script = saved
+        del want.calls[n0:]
+
+
 def eval_traversal(th: TH, tname, form, nbmap, members, settings, ffr_mode, start="a", vcls="Vertex"):
     """-> dict(outcome=..., listing=[names] | exc, calls_ok=bool, calls=[...])"""
     V = th.setup(nbmap, members, vcls)
-    d, uh, via = settings
+    d, uh, via = settings if settings != "defaults" else (None, None, False)
     ff_via = Callback("ff_via") if via else None
     ffr, keep = mk_ff_result(ffr_mode, V)
     mod, lst, gen, _ = TRAVS[tname]
     fn = th.fn[lst if form == "list" else gen]
-    out = th.h.call(fn, th.uni, V[start], direction_sensitive=th.C[d], unknown_handling=th.C[uh], ff_via=ff_via, ff_result=ffr)
-    bad_calls = [c for c in th.calls if not (c[1] == th.C[d] and c[1] is not None and c[2] == th.C[uh] and c[3] is ff_via)]
+    if settings == "defaults":
+        # the plain call: no keyword at all; neighbors() must then be asked with its own defaults
+        out = th.h.call(fn, th.uni, V[start])
+        ed, eu, ev = th.defaults
+    else:
+        out = th.h.call(fn, th.uni, V[start], direction_sensitive=th.C[d], unknown_handling=th.C[uh], ff_via=ff_via, ff_result=ffr)
+        ed, eu, ev = th.C[d], th.C[uh], ff_via
+    bad_calls = [c for c in th.calls if not (c[1] == ed and c[1] is not None and c[2] == eu and same_filter(th, c[3], ev))]
     listing = names(out.value) if out.kind == "return" and isinstance(out.value, Seq) else None
     return {"out": out, "listing": listing, "bad_calls": bad_calls, "keep": keep, "ff_calls": [a[0].name for a, k in ffr.calls] if ffr is not None else None}
 
@@ -180,7 +210,7 @@ SETTINGS = [(d, u, v) for d in ("DIR_SENS_FORWARD", "DIR_SENS_ANY", "DIR_SENS_BA
 def scope(thorough):
     if thorough:
         return dict(inner=("a", "b", "c"), outside=("x",), maxlen=2, sampled=30000)
-    return dict(inner=("a", "b"), outside=("x",), maxlen=2, sampled=900)
+    return dict(inner=("a", "b"), outside=("x",), maxlen=2, sampled=520)
 
 
 def sampled_maps(n, seed=20261004):
@@ -210,16 +240,40 @@ def sweep_job(job):
         vcls = "SymFalsyVert" if (base + mi) % 2 else "Vertex"    # a traversal never depends on the truth value of a vertex
         for members in (None, list(inner)):
             member = (lambda v: True) if members is None else (lambda v, m=set(members): v in m)
-            for tname in TRAVS:
+            for ti, tname in enumerate(TRAVS):
                 base_listing = None
-                for ffr in FF_RESULTS:
+                for fi, ffr in enumerate(FF_RESULTS + ("none/other-form", "none/defaults")):
                     k += 1
-                    settings = SETTINGS[k % len(SETTINGS)]
-                    form = "gen" if k % 3 == 0 else "list"
+                    # settings, form and ff_result vary independently of each other across the sweep
+                    settings = SETTINGS[(k * 7 + fi * 5 + ti) % len(SETTINGS)]
+                    form = "gen" if (k // 5 + fi + ti) % 2 == 0 else "list"
+                    if ffr == "none/other-form":
+                        ffr, form, settings = "none", ("list" if base_form == "gen" else "gen"), base_settings     # generator and list forms on the same input
+                    elif ffr == "none/defaults":
+                        ffr, settings = "none", "defaults"
+                    elif ffr == "none":
+                        base_form, base_settings = form, settings
                     n += 1
                     rec = dict(map={v: list(l) for v, l in nbmap.items()}, universe=members, trav=tname, form=form, settings=settings, ff_result=ffr)
                     try:
-                        r = eval_traversal(th, tname, form, nbmap, members, settings, ffr, vcls=vcls)
+                        try:
+                            r = eval_traversal(th, tname, form, nbmap, members, settings, ffr, vcls=vcls)
+                        except Unknown as u0:
+                            if "set-order" not in str(u0) and "set-pop" not in str(u0):
+                                raise
+                            # the code iterates a set: decided by comparing two iteration orders (a difference is a witness that
+                            # the listing is not a function of the graph's link order alone)
+                            outs = []
+                            for order in ("insertion", "reversed"):
+                                th.h.w.set_order = order
+                                try:
+                                    outs.append(eval_traversal(th, tname, form, nbmap, members, settings, ffr, vcls=vcls))
+                                finally:
+                                    th.h.w.set_order = "fork"
+                            r = outs[0]
+                            if outs[0]["listing"] != outs[1]["listing"]:
+                                rec.update(kind="setorder", got=outs[0]["listing"], want=outs[1]["listing"])
+                                recs.append(dict(rec))
                     except Unknown as u:
                         if "budget" in str(u):
                             rec.update(kind="nonterm", got=str(u))
@@ -250,6 +304,9 @@ def sweep_job(job):
                         rec.update(kind="order")
                         recs.append(dict(rec))
                     if ffr == "none":
+                        if base_listing is not None and got != base_listing:
+                            rec.update(kind="forms", want=base_listing)     # generator / list form, or default / explicit call, disagree
+                            recs.append(dict(rec))
                         base_listing = got
                     elif base_listing is not None and got != [v for v in base_listing if r["keep"](v)]:
                         rec.update(kind="ff_result", want=[v for v in base_listing if r["keep"](v)])
